@@ -199,16 +199,7 @@ def run(ctx):
 
     # ---------- N9
     render.duplicate_cel(ctx, rule='N9')
-    import panics as _p
-    import C04 as _c04
-    ab = ctx.anchor('asefile::cel::CelsData::add_cel')
-    if ab is not None:
-        sites = [s_ for s_ in _p.inventory(fx, [ab]) if s_.kind in ('ext:index', 'ext:index_mut') and 'layer_index' in s_.what]
-        ctx.floor('slot accesses in add_cel', len(sites), 2)
-        for s_ in sites:
-            ok, why = _c04.row_add_cel_inner(ctx, s_)
-            ctx.inst('N9', 'add_cel#grow-only', ok, 'the cel row is only ever grown (resize_with(layer+1) under len < layer+1) before slot `layer` is used, so a lower '
-                     'layer arriving later cannot truncate stored cels: %s' % why, s_.span, key=ctx.key(ab.name, 'N9', 'grow-only', ''))
+    render.cel_rows_grow_only(ctx, rule='N9')
     import iorules
     rb = [b_ for b_ in fx.bodies if b_.name.startswith('asefile::reader::AseReader::')]
     iorules.exact_reads_only(ctx, rb, 'N2')
